@@ -25,7 +25,7 @@ from .. import common as c
 
 PROP = "X03"
 LP_OUT = 5.0        # bending constant of the exhaustive instance with the initial 1 above the density (InitRank 9999)
-MAX_EVENTS = 300    # recorded events per walk object (longer walks are recorded up to here)
+MAX_EVENTS = 120    # recorded events per walk object (longer walks are recorded up to here)
 MAX_WALKS = 24      # recorded walk objects per run
 RUN_TIMEOUT = 4     # seconds per gen_coords run; a timed-out run contributes the walks recorded so far (no verdict on the rest)
 LP_IN = 200.0       # constant for which 1 lies between the density at 179 and at 180 degrees (InitRank 1795)
@@ -430,7 +430,7 @@ def _record_run(arg):
     wd.mkdir(parents=True, exist_ok=True)
     text, names = _walk_top(rng, rng.randint(5, 14), rng.randint(1, 3), rng.random() < 0.4)
     (wd / "s.top").write_text(text)
-    table = _walk_table(rng)
+    table = _walk_table(random.Random(sd // 100000 * 7 + sd % 4))     # four tables per check seed: one TLC batch per table
     (wd / "b.bld").write_text("[ bending ]\n" + "".join("%s %s %s %r\n" % (tr + (lp,)) for tr, lp in table))
     walks = []          # list of event lists (floats)
     state = {"cur": None}
@@ -696,8 +696,8 @@ def run(tier):
         k = next(i for i, r in enumerate(bad) if not r["v_equal"])
         bad[k]["nb1_is_arith"], bad[k]["nb1_is_geo"] = bad[k]["nb1_is_geo"], bad[k]["nb1_is_arith"]
         rej = comb_validate(ck, bad, raw[:20], devmap, "comb_corrupt", expect_reject=True)
-        if rej != [k + 1]:
-            raise c.MachineryError("binding demonstration (comb rule) failed: corrupted record %d, rejected %s" % (k + 1, rej))
+        ck.require((k + 1) in rej and (ck.violations or rej == [k + 1]),
+                   "binding demonstration (comb rule) failed: corrupted record %d, rejected %s" % (k + 1, rej))
         ck.extra["binding_demo_comb"] = "record with swapped mean verdicts rejected (record %d of 20)" % (k + 1)
     # ---- (a) S->I
     ck.stage("bending: replay exhaustive exports")
@@ -741,8 +741,9 @@ def run(tier):
     ck.extra["walks"] = {"runs": nruns, "timeouts": sum(1 for r in runs if r["error"] == "timeout"), "walk_objects": nwalk, "events": nev, "calls_by_kind": kinds}
     for k in ("skip", "threshold", "improve"):
         ck.require(kinds.get(k, 0) > 0, "real walks never took the %s path (vacuous I->S)" % k)
-    first = next(w for r in runs for w in r["walks"] if len(w["events"]) > 8)
-    ck.sample({"bend I->S trace (ranks)": first["events"][:9]})
+    first = next((w for r in runs for w in r["walks"] if len(w["events"]) > 8), None)
+    if first:
+        ck.sample({"bend I->S trace (ranks)": first["events"][:9]})
     ck.stage("bending: validate %d walk traces (%d events)" % (nwalk, nev))
     bend_validate(ck, runs, "walk_traces")
     # binding demonstration
@@ -754,12 +755,10 @@ def run(tier):
                 w2 = {"init": w["init"], "events": [dict(e) for e in w["events"]], "raw": w["raw"]}
                 w2["events"][idx[0]]["res"] = not w2["events"][idx[0]]["res"]
                 demo = {"seed": r["seed"], "table": r["table"], "lps": r["lps"], "walks": [w2], "error": None}
-    if demo is None:
-        raise c.MachineryError("no walk with a threshold decision to corrupt")
-    rej = bend_validate(ck, [demo], "walk_corrupt", expect_reject=True)
-    if not rej:
-        raise c.MachineryError("binding demonstration (bending) failed: a flipped decision was accepted")
-    ck.extra["binding_demo_bending"] = "walk with one flipped return value rejected after %d matched events" % rej[0][2]
+    if ck.require(demo is not None, "no walk with a threshold decision to corrupt"):
+        rej = bend_validate(ck, [demo], "walk_corrupt", expect_reject=True)
+        if ck.require(bool(rej), "binding demonstration (bending) failed: a flipped decision was accepted"):
+            ck.extra["binding_demo_bending"] = "walk with one flipped return value rejected after %d matched events" % rej[0][2]
     ck.exhaustive = True
     return ck.finish()
 
